@@ -1820,6 +1820,15 @@ class Exec:
                             o.state.loc[idxname] = Num(i + 1)
                             tests.append((True, o.state))
                     else:
+                        # exhausted: the loop variable keeps the last element (it is unbound only for an empty list),
+                        # unless the body itself rebinds it
+                        if isinstance(node.target, ast.Name) and not any(
+                                isinstance(n, ast.Name) and isinstance(n.ctx, ast.Store) and n.id == node.target.id
+                                for b_ in node.body for n in ast.walk(b_)):
+                            lst3 = self.deref(s.loc["__it%d" % ordinal], s)
+                            if isinstance(lst3, VOpt):
+                                lst3 = lst3.val
+                            s.loc[node.target.id] = ("maybe_unbound", lst3.len >= 1, lst3.at(lst3.len - 1))
                         tests.append((False, s))
             for b, s in tests:
                 if not b:
